@@ -4,7 +4,6 @@ From GL Require Import Common.Bytes Common.BytesFacts Io.IoSpec Io.IoImpl Io.IoS
 From Coq Require Import Lia ZifyBool.
 
 (* ---------- hypotheses on histories, as boolean functions ---------- *)
-Definition numfirst (ops : list op) : bool := forallb numfirst_op ops.
 
 Definition is_unsup (r : res) : bool := match r with RUnsupported => true | _ => false end.
 (* the history stays inside the fragment the models support (decimal numerals, counts >= 0) *)
@@ -30,28 +29,27 @@ Variable ch : Z -> Z -> Z -> Z.
 (* ---------- runs ---------- *)
 Lemma run_sim : forall ops disk h l,
   Inv disk h -> (is_LWrite l = false -> pending h = []) ->
-  disc1 l ops = true -> numfirst ops = true ->
+  disc1 l ops = true ->
   supported (spec_results true (abs_content disk h) (abs_h disk h) ops) = true ->
   let '(d', h', rs) := irun ch disk h ops in
   let '(c', s', rs') := srun true (abs_content disk h) (abs_h disk h) ops in
-  Forall2 res_sim rs rs' /\ c' = abs_content d' h' /\ s' = abs_h d' h' /\ Inv d' h' /\
+  rs = rs' /\ c' = abs_content d' h' /\ s' = abs_h d' h' /\ Inv d' h' /\
   (is_LWrite (disc1_end l ops) = false -> pending h' = []).
 Proof.
-  induction ops as [|o ops IH]; intros disk h l IV LP D NF SU.
-  - cbn. split; [constructor|]. split; [reflexivity|]. split; [reflexivity|]. split; [exact IV|exact LP].
-  - cbn [irun srun disc1 disc1_end numfirst forallb] in *. unfold spec_results in SU. cbn [srun] in SU.
+  induction ops as [|o ops IH]; intros disk h l IV LP D SU.
+  - cbn. split; [reflexivity|]. split; [reflexivity|]. split; [reflexivity|]. split; [exact IV|exact LP].
+  - cbn [irun srun disc1 disc1_end] in *. unfold spec_results in SU. cbn [srun] in SU.
     destruct (disc1_step l o) as [l1|] eqn:DS; [|discriminate].
-    apply andb_prop in NF as [NF1 NF2].
     destruct (istep ch disk h o) as [[d1 h1] r1] eqn:EI.
     destruct (sstep true (abs_content disk h) (abs_h disk h) o) as [[c1 s1] r1'] eqn:ES.
     destruct (srun true c1 s1 ops) as [[c2 s2] rs2] eqn:ER. cbn [supported forallb] in SU.
     apply andb_prop in SU as [SU1 SU2].
     assert (NU : r1' <> RUnsupported) by (intros ->; discriminate).
-    destruct (step_sim ch disk h l l1 o d1 h1 r1 c1 s1 r1' IV LP DS NF1 EI ES NU) as (IV1 & LP1 & -> & -> & RS).
-    specialize (IH d1 h1 l1 IV1 LP1 D NF2). unfold spec_results in IH. rewrite ER in IH.
+    destruct (step_sim ch disk h l l1 o d1 h1 r1 c1 s1 r1' IV LP DS EI ES NU) as (IV1 & LP1 & -> & -> & ->).
+    specialize (IH d1 h1 l1 IV1 LP1 D). unfold spec_results in IH. rewrite ER in IH.
     specialize (IH SU2). destruct (irun ch d1 h1 ops) as [[d2 h2] rs1].
-    destruct IH as (F & -> & -> & IV2 & LP2).
-    split; [constructor; assumption|]. split; [reflexivity|]. split; [reflexivity|]. split; [exact IV2|exact LP2].
+    destruct IH as (-> & -> & -> & IV2 & LP2).
+    split; [reflexivity|]. split; [reflexivity|]. split; [reflexivity|]. split; [exact IV2|exact LP2].
 Qed.
 
 Lemma Inv_open m init : Inv (fst (i_open m init)) (snd (i_open m init)).
@@ -66,14 +64,14 @@ Proof. split; reflexivity. Qed.
 
 (* every disciplined history on a freshly opened handle, gopher-lua's line rule *)
 Lemma io_refines_crlf_lemma : forall m init ops,
-  disc1 LNone ops = true -> numfirst ops = true ->
+  disc1 LNone ops = true ->
   supported (spec_results true (fst (s_open m init)) (snd (s_open m init)) ops) = true ->
   let '(d', h', rs) := irun ch (fst (i_open m init)) (snd (i_open m init)) ops in
   let '(c', s', rs') := srun true (fst (s_open m init)) (snd (s_open m init)) ops in
-  Forall2 res_sim rs rs' /\ c' = abs_content d' h' /\ s' = abs_h d' h'.
+  rs = rs' /\ c' = abs_content d' h' /\ s' = abs_h d' h'.
 Proof.
-  intros m init ops D NF SU.
-  pose proof (run_sim ops _ _ LNone (Inv_open m init) (fun _ => eq_refl) D NF) as H.
+  intros m init ops D SU.
+  pose proof (run_sim ops _ _ LNone (Inv_open m init) (fun _ => eq_refl) D) as H.
   destruct (abs_open m init) as (E1 & E2). rewrite E1, E2 in H. specialize (H SU).
   destruct (irun ch _ _ ops) as [[d' h'] rs]. destruct (srun true _ _ ops) as [[c' s'] rs'].
   tauto.
@@ -195,14 +193,14 @@ Proof. intros H. unfold s_open; cbn [fst]. destruct (mode_trunc m); [reflexivity
 
 (* the headline: Lua 5.1's line rule, files and written strings without "\r" *)
 Lemma io_refines_lemma : forall m init ops,
-  disc1 LNone ops = true -> numfirst ops = true ->
+  disc1 LNone ops = true ->
   cr_free init = true -> forallb op_cr_free ops = true ->
   supported (spec_results false (fst (s_open m init)) (snd (s_open m init)) ops) = true ->
   let '(d', h', rs) := irun ch (fst (i_open m init)) (snd (i_open m init)) ops in
   let '(c', s', rs') := srun false (fst (s_open m init)) (snd (s_open m init)) ops in
-  Forall2 res_sim rs rs' /\ c' = abs_content d' h' /\ s' = abs_h d' h'.
+  rs = rs' /\ c' = abs_content d' h' /\ s' = abs_h d' h'.
 Proof.
-  intros m init ops D NF C O SU.
+  intros m init ops D C O SU.
   pose proof (srun_cr_free ops _ (snd (s_open m init)) (cr_free_open m init C) O) as E.
   unfold spec_results in SU. rewrite <- E in *. apply io_refines_crlf_lemma; assumption.
 Qed.
@@ -225,7 +223,7 @@ Qed.
 
 Lemma visible_after_flush_close_lemma : forall m init ops o,
   (o = OFlush \/ o = OClose) ->
-  disc1 LNone (ops ++ [o]) = true -> numfirst ops = true ->
+  disc1 LNone (ops ++ [o]) = true ->
   supported (spec_results true (fst (s_open m init)) (snd (s_open m init)) (ops ++ [o])) = true ->
   let '(d', h', _) := irun ch (fst (i_open m init)) (snd (i_open m init)) (ops ++ [o]) in
   let '(c', _, _) := srun true (fst (s_open m init)) (snd (s_open m init)) (ops ++ [o]) in
@@ -233,10 +231,8 @@ Lemma visible_after_flush_close_lemma : forall m init ops o,
   forall m2, mode_rd m2 = true -> mode_trunc m2 = false ->
     snd (istep ch (fst (i_open m2 d')) (snd (i_open m2 d')) (ORead [FAll])) = RVals [VStr c'].
 Proof.
-  intros m init ops o HO D NF SU.
-  assert (NF' : numfirst (ops ++ [o]) = true).
-  { unfold numfirst in *. rewrite forallb_app, NF. destruct HO as [-> | ->]; reflexivity. }
-  pose proof (run_sim (ops ++ [o]) _ _ LNone (Inv_open m init) (fun _ => eq_refl) D NF') as H.
+  intros m init ops o HO D SU.
+  pose proof (run_sim (ops ++ [o]) _ _ LNone (Inv_open m init) (fun _ => eq_refl) D) as H.
   destruct (abs_open m init) as (E1 & E2). rewrite E1, E2 in H. specialize (H SU).
   pose proof (disc1_end_app LNone ops o D) as DE.
   destruct (irun ch _ _ (ops ++ [o])) as [[d' h'] rs]. destruct (srun true _ _ (ops ++ [o])) as [[c' s'] rs'].
@@ -251,18 +247,18 @@ Qed.
    bytes the model has (the first handle stays idle meanwhile) *)
 Lemma second_handle_refines_lemma : forall m init ops o m2 ops2,
   (o = OFlush \/ o = OClose) ->
-  disc1 LNone (ops ++ [o]) = true -> numfirst ops = true ->
+  disc1 LNone (ops ++ [o]) = true ->
   supported (spec_results true (fst (s_open m init)) (snd (s_open m init)) (ops ++ [o])) = true ->
-  disc1 LNone ops2 = true -> numfirst ops2 = true ->
+  disc1 LNone ops2 = true ->
   let '(d1, _, _) := irun ch (fst (i_open m init)) (snd (i_open m init)) (ops ++ [o]) in
   let '(c1, _, _) := srun true (fst (s_open m init)) (snd (s_open m init)) (ops ++ [o]) in
   supported (spec_results true (fst (s_open m2 c1)) (snd (s_open m2 c1)) ops2) = true ->
   let '(d', h', rs) := irun ch (fst (i_open m2 d1)) (snd (i_open m2 d1)) ops2 in
   let '(c', s', rs') := srun true (fst (s_open m2 c1)) (snd (s_open m2 c1)) ops2 in
-  Forall2 res_sim rs rs' /\ c' = abs_content d' h' /\ s' = abs_h d' h'.
+  rs = rs' /\ c' = abs_content d' h' /\ s' = abs_h d' h'.
 Proof.
-  intros m init ops o m2 ops2 HO D NF SU D2 NF2.
-  pose proof (visible_after_flush_close_lemma m init ops o HO D NF SU) as V.
+  intros m init ops o m2 ops2 HO D SU D2.
+  pose proof (visible_after_flush_close_lemma m init ops o HO D SU) as V.
   destruct (irun ch _ _ (ops ++ [o])) as [[d1 h1] rs1].
   destruct (srun true _ _ (ops ++ [o])) as [[c1 s1] rs1'].
   destruct V as (-> & _). intros SU2.
@@ -292,16 +288,16 @@ Proof.
   unfold s_read1 in SP. destruct f as [n| | |]; cbn [eof_fmt] in EF; try discriminate.
   - destruct (n <? 0) eqn:N; [lia|].
     destruct (rest disk (pos h)) as [|b t] eqn:ER.
-    + destruct SP as (_ & _ & _ & [-> | (_ & _ & X & _)]); [|discriminate]. split; [reflexivity|auto].
-    + destruct SP as (_ & _ & _ & [-> | (_ & _ & X & _)]); [|discriminate]. cbn [snd].
+    + destruct SP as (_ & _ & _ & ->). split; [reflexivity|auto].
+    + destruct SP as (_ & _ & _ & ->). cbn [snd].
       split; [discriminate|]. intros _ X. discriminate.
   - unfold line_of in SP. destruct (rest disk (pos h)) as [|b t] eqn:ER.
-    + destruct SP as (_ & _ & _ & [-> | (_ & _ & X & _)]); [|discriminate]. split; [reflexivity|auto].
+    + destruct SP as (_ & _ & _ & ->). split; [reflexivity|auto].
     + destruct (take_line (b :: t)) as [l nl].
-      destruct SP as (_ & _ & _ & [-> | (_ & _ & X & _)]); [|discriminate]. cbn [snd].
+      destruct SP as (_ & _ & _ & ->). cbn [snd].
       split; [discriminate|]. intros _ X. discriminate.
   - split; [|congruence]. intros E. rewrite E in SP. cbn in SP.
-    destruct SP as (_ & _ & _ & [-> | (_ & _ & _ & n & X)]); [reflexivity|discriminate].
+    destruct SP as (_ & _ & _ & ->). reflexivity.
 Qed.
 
 (* ---------- seek ---------- *)
@@ -319,14 +315,14 @@ Proof.
   { unfold sstep in ES. cbn [s_closed abs_h] in ES. rewrite C in ES.
     destruct (_ <? 0) in ES; injection ES as <- <- <-; discriminate. }
   destruct (step_sim ch disk h LWrite LNone (OSeek w off) d' h' r c' s' r' IV
-              ltac:(discriminate) eq_refl eq_refl EI ES NU) as (_ & _ & EC & EH & RS).
+              ltac:(discriminate) eq_refl EI ES NU) as (_ & _ & EC & EH & RS).
   unfold sstep in ES. cbn [s_closed s_pos abs_h] in ES. rewrite C in ES. fold t in ES.
   destruct (t <? 0) eqn:NEG; injection ES as <- <- <-.
   - split; [symmetry; exact EC|]. split; [lia|]. intros _.
-    destruct RS as [-> | (_ & X)]; [|discriminate]. split; [reflexivity|].
+    subst r. split; [reflexivity|].
     injection EH as EP _. symmetry; exact EP.
   - split; [symmetry; exact EC|]. split; [|lia]. intros _.
-    destruct RS as [-> | (_ & X)]; [|discriminate]. split; [reflexivity|].
+    subst r. split; [reflexivity|].
     injection EH as EP _. symmetry; exact EP.
 Qed.
 
@@ -350,11 +346,11 @@ Proof.
   assert (NU : r' <> RUnsupported).
   { destruct (s_write1 true _ (concat ss)) in ES. injection ES as _ _ <-. discriminate. }
   destruct (step_sim ch disk h LWrite LWrite (OWrite ss) d' h' r c' s' r' IV
-              ltac:(discriminate) eq_refl eq_refl EI ES0 NU) as (_ & _ & EC & EH & RS).
+              ltac:(discriminate) eq_refl EI ES0 NU) as (_ & _ & EC & EH & RS).
   unfold s_write1 in ES. destruct (concat ss) as [|b t] eqn:EC0.
-  - injection ES as <- <- <-. destruct RS as [-> | (_ & X)]; [|discriminate].
+  - injection ES as <- <- <-. subst r.
     split; [reflexivity|]. split; [rewrite app_nil_r; symmetry; exact EC|congruence].
-  - injection ES as <- <- <-. destruct RS as [-> | (_ & X)]; [|discriminate].
+  - injection ES as <- <- <-. subst r.
     split; [reflexivity|]. split; [symmetry; exact EC|]. intros _.
     injection EH as EP _. rewrite <- EP, <- EC, len_app. reflexivity.
 Qed.
@@ -394,53 +390,36 @@ End Thm.
 Definition refines_on (ch : Z -> Z -> Z -> Z) (m : omode) (init : bytes) (ops : list op) : Prop :=
   let '(d', h', rs) := irun ch (fst (i_open m init)) (snd (i_open m init)) ops in
   let '(c', s', rs') := srun false (fst (s_open m init)) (snd (s_open m init)) ops in
-  Forall2 res_sim rs rs' /\ c' = abs_content d' h' /\ s' = abs_h d' h'.
-
-Ltac refute_first H :=
-  vm_compute in H; destruct H as (F & _); inversion F as [|? ? ? ? X]; subst;
-  destruct X as [X | (X1 & X2)]; [discriminate X | first [discriminate X1 | discriminate X2]].
+  rs = rs' /\ c' = abs_content d' h' /\ s' = abs_h d' h'.
 
 (* C19-3: with a "\r\n" in the file the line rule of the code is not Lua 5.1's *)
 Lemma io_refines_cr_refuted_lemma :
   exists m init ops,
-    disc1 LNone ops = true /\ numfirst ops = true /\ forallb op_cr_free ops = true /\
+    disc1 LNone ops = true /\ forallb op_cr_free ops = true /\
     supported (spec_results false (fst (s_open m init)) (snd (s_open m init)) ops) = true /\
     ~ refines_on ch_full m init ops.
 Proof.
   exists MR, [97;98;99;13;10;120], [ORead [FLine]].
-  do 4 (split; [reflexivity|]). intros H. unfold refines_on in H. refute_first H.
-Qed.
-
-(* C19-11: a "*n" that fails after another format drops the value already read *)
-Lemma io_refines_multi_num_refuted_lemma :
-  exists m init ops,
-    disc1 LNone ops = true /\ cr_free init = true /\ forallb op_cr_free ops = true /\
-    supported (spec_results false (fst (s_open m init)) (snd (s_open m init)) ops) = true /\
-    ~ refines_on ch_full m init ops.
-Proof.
-  exists MR, [120;32;97;98;99], [ORead [FCount 1; FNum]].
-  do 4 (split; [reflexivity|]). intros H. unfold refines_on in H. refute_first H.
+  do 3 (split; [reflexivity|]). intros H. unfold refines_on in H.
+  vm_compute in H. destruct H as (F & _). discriminate F.
 Qed.
 
 (* not a defect (ISO C leaves it undefined): a read straight after a buffered write does not see
    the pending bytes, so the discipline hypothesis is needed *)
 Lemma io_refines_needs_discipline_lemma :
   exists m init ops,
-    numfirst ops = true /\ cr_free init = true /\ forallb op_cr_free ops = true /\
+    cr_free init = true /\ forallb op_cr_free ops = true /\
     supported (spec_results false (fst (s_open m init)) (snd (s_open m init)) ops) = true /\
     ~ refines_on ch_full m init ops.
 Proof.
   exists MRp, [48;49;50;51;52;53;54;55;56;57],
     [OSetvbuf VFull (Some 1024); OWrite [[65;66]]; ORead [FCount 2]].
-  do 4 (split; [reflexivity|]). intros H. unfold refines_on in H.
-  vm_compute in H. destruct H as (F & _).
-  inversion F as [|? ? ? ? _ F1]; subst. inversion F1 as [|? ? ? ? _ F2]; subst.
-  inversion F2 as [|? ? ? ? X _]; subst.
-  destruct X as [X | (X1 & X2)]; [discriminate X | first [discriminate X1 | discriminate X2]].
+  do 3 (split; [reflexivity|]). intros H. unfold refines_on in H.
+  vm_compute in H. destruct H as (F & _). discriminate F.
 Qed.
 
-(* the property at full strength (no restriction on "\r" or on where "*n" stands): false of the
-   code as it is, by the two listed findings *)
+(* the property at full strength (no restriction on "\r"): false of the code as it is, by
+   the listed finding C19-3 *)
 Definition io_refines_full : Prop :=
   forall (ch : Z -> Z -> Z -> Z) m init ops,
     disc1 LNone ops = true ->
@@ -449,6 +428,6 @@ Definition io_refines_full : Prop :=
 
 Lemma io_refines_full_refuted_lemma : ~ io_refines_full.
 Proof.
-  intros H. destruct io_refines_cr_refuted_lemma as (m & init & ops & D & _ & _ & S & N).
+  intros H. destruct io_refines_cr_refuted_lemma as (m & init & ops & D & _ & S & N).
   apply N. apply H; assumption.
 Qed.
